@@ -15,6 +15,7 @@ CONSTANTS Templates,      \* names of the templates the driver can build
           Origins,        \* subset of 1..3
           Tables,         \* subset of 0..3   ($fixup tables of the driver)
           Triples,        \* TRUE: also sequences of three
+          MaxArr,         \* longest output list of the relaying entity in the instance I/O scenarios
           Full            \* TRUE: style x table at every rotation; FALSE: a diagonal at every rotation, the product at two
 
 VARIABLE sc
@@ -40,8 +41,13 @@ VisSingles == {[t |-> t, insts |-> <<Inst(<<65>>, a, o, d[1], d[2])>>] :
 VisMultis == {[t |-> t, insts |-> <<a, b>>] : t \in VisTemplates \cap MultiTemplates, a \in Pool, b \in {Inst(<<66>>, <<0, 1, 0>>, 2, 0, 1)}}
 Scenarios == WithVg(Singles \cup Multis, 0) \cup WithVg(VisSingles \cup VisMultis, 1) \cup WithVg(VisSingles \cup VisMultis, 2)
 
+\* instance I/O: the entity inside has any arrangement of outputs - "pa"/"pb" relay two different outputs to the
+\* proxy, "pa2" relays the first one a second time, "n" is an ordinary output - and the func_instance has one of
+\* two connection sets; every fixup style
+IoScens == {[t |-> "io", arr |-> a, style |-> st, cs |-> c] :
+               a \in UNION {[1..n -> {"pa", "pb", "pa2", "n"}] : n \in 0..MaxArr}, st \in 0..2, c \in 1..2}
 Init == sc = [t |-> "none", insts |-> <<>>, vg |-> 0]
-Next == sc.t = "none" /\ sc' \in Scenarios
+Next == sc.t = "none" /\ (sc' \in Scenarios \/ sc' \in IoScens)
 Spec == Init /\ [][Next]_sc
 \* every rotation of the lattice is reached by an instance, and every scenario instance is one
 AllRotations == {FromAngle(a) : a \in Angles} = Rotations /\ Cardinality(Rotations) = 24
